@@ -260,9 +260,18 @@ def parse_nat_list(stdout: str, marker: str):
 # ----------------------------------------------------------------------------- findings / evidence
 def load_findings():
     p = VERIF / "known_findings.json"
-    if not p.exists():
-        return []
-    return json.loads(p.read_text())["findings"]
+    out = json.loads(p.read_text())["findings"] if p.exists() else []
+    have = {(f["property"], f["key"]) for f in out}
+    # development fragments written by per-property builders (merged into known_findings.json by tools/merge_findings.py)
+    for q in sorted((VERIF / "findings.d").glob("*.json")):
+        try:
+            for f in json.loads(q.read_text()):
+                if (f["property"], f["key"]) not in have:
+                    out.append(f)
+                    have.add((f["property"], f["key"]))
+        except Exception:  # noqa: BLE001
+            pass
+    return out
 
 
 def write_replay(prop: str, payload: dict) -> Path:
